@@ -223,8 +223,13 @@ class Executor:
         if org is None:
             return [fresh], "restart from a field that is no trajectory end state: fresh"
         traj, idx, is_fallback, osolver, oop = org
-        cont = ("continue", (traj, idx), idx)
         hist = self.solver_hist.get(s, [])
+        if traj is None:
+            # end state of a call whose own memory was unspecified: whatever continues it is too
+            if osolver == s and is_fallback:
+                return None, "continuation of a call with unspecified memory: unspecified"
+            return [fresh], "end state of another object's call with unspecified memory: fresh"
+        cont = ("continue", (traj, idx), idx)
         if osolver == s and hist and hist[-1][0] == oop and hist[-1][1] == "completed" and is_fallback:
             return [cont], "immediate continuation from the returned final state"
         if osolver == s and is_fallback and hist and hist[-1][1] in ("step", "crashed"):
@@ -234,23 +239,26 @@ class Executor:
         return [cont, fresh], "end state but not an immediate continuation: either reading"
 
     def _origin(self, j, k):
-        """Is result k of op j the end state of op j's trajectory?  (lazy)"""
+        """Is result k of op j the end state of op j's trajectory?  (lazy)
+
+        None: no.  Otherwise (traj | None, index, is_fallback, solver, op); traj is
+        None when op j followed no specified model trajectory."""
         if (j, k) in self.origin:
             return self.origin[(j, k)]
         r = self.res.records[j] if j < len(self.res.records) else None
         org = None
-        if r is not None and r.kind in ("solve", "restart") and r.outcome == "returned" and r.result:
-            m = self.match_of(r)
-            if m is not None:
-                label, traj, offset = m
-                n = offset + r.nit
-                if n < len(traj.states):
-                    end = traj.states[n]
-                    dig, t, it, fin, data = r.result[k]
-                    if dig == digest_field(end) and t == float(end.time):
-                        nside = len(r.trace.side_steps())
-                        is_fallback = (len(r.result) == 1 and nside == 0 and r.nit >= 1)
-                        org = (traj, n, is_fallback, r.s, r.i)
+        if r is not None and r.kind in ("solve", "restart") and r.outcome == "returned" and r.result \
+                and r.qn is not None:
+            dig, t, it, fin, data = r.result[k]
+            if dig == r.qn[0] and float(t).hex() == float(r.qn[1]).hex():
+                nside = len(r.trace.side_steps())
+                is_fallback = (len(r.result) == 1 and nside == 0 and r.nit >= 1)
+                m = self.match_of(r)
+                if m is not None:
+                    label, traj, offset = m
+                    org = (traj, offset + r.nit, is_fallback, r.s, r.i)
+                else:
+                    org = (None, None, is_fallback, r.s, r.i)
         self.origin[(j, k)] = org
         return org
 
